@@ -21,7 +21,7 @@ RELEVANT = {"ObsUtxoIsReplay", "ObsChainValid"}
 def run(ctx):
     binary = ctx.build_adapter("utxochain")
     nontrivial = lambda p: any(s["a"][0] in ("invalidate", "reconsider") for s in p["steps"]) or len({s["a"][1] for s in p["steps"] if s["a"][0] == "mine"}) > 1
-    name = "c09q" if ctx.tier == "quick" else "spend4"
+    name = "c09q" if ctx.tier == "quick" else "c09t"
     pa, pr = _utxochain.run_scenario(ctx, binary, "MC_spend", "MCO_spend", name, RELEVANT, nontrivial)
     if not pa.get("invalidate") or not pa.get("reconsider"):
         raise vflib.InfraError("vacuity: invalidate/reconsider never taken")
